@@ -81,6 +81,10 @@ def none_infeasible(ck, it, env, r, fn, what):
     walk(r, [])
     bad = []
     for path in conds:
+        if not path:
+            # the getter answers None unconditionally
+            bad.append(([C(True)], "refutable", {}))
+            continue
         if D.feasible(list(env.facts) + path):
             st, m = D.prove(list(env.facts) + path[:-1], un("not", path[-1]))
             if st != "proved":
